@@ -39,6 +39,40 @@ def main():
     if not ok1 or ok2 or ok3:
         print("selftest FAILED: the trace specification does not bind")
         return 1
+    return note_selftest()
+
+
+def note_selftest():
+    """the same for the L2 layer: NoteTrace.tla accepts a recorded execution of note.c / wait.c over the ideal lock, and rejects it with one
+    logged 'notified' bit flipped or one event dropped"""
+    import l2lib, notelib
+    exe = build("h_l2")
+    os.makedirs(l2lib.MC, exist_ok=True)
+    shutil.copy(os.path.join(SPEC, "NoteTrace.tla"), os.path.join(l2lib.MC, "NoteTrace.tla"))
+    c = notelib.CONF["n_chain"][2]
+    conf = dict(notelib.note_conf(c), _c=c)
+    tr = os.path.join(WORK, "tlc", "selfn.ndjson")
+    run_harness_env(exe, ["random", "10", "3", l2lib.init_line("note", conf), REPLAYS, tr], dict(os.environ, VERIF_PROP="C08"))
+    lines = open(tr).read().splitlines()
+
+    def val(name):
+        tla, cfg = l2lib.write_mc("Note", name, conf, notelib.consts_of(c), export=False)
+        t1 = open(tla).read().replace("EXTENDS Note\n", "EXTENDS NoteTrace\n")
+        open(tla, "w").write(t1)
+        t2 = open(cfg).read().replace("SPECIFICATION SpecU", "SPECIFICATION TraceSpec") + "INVARIANT TraceInv\nCONSTRAINT Progress\nPOSTCONDITION Accepted\n"
+        open(cfg, "w").write(t2)
+        return tlc_plain(tla, cfg, workers=1, cwd=l2lib.MC, env=dict(os.environ, TRACE=tr))["ok"]
+    ok1 = val("selfn_ok")
+    k = next(i for i, l in enumerate(lines) if '"k":"st"' in l and '"nm":[1' in l)      # the store that notifies note 1
+    d = json.loads(lines[k]); d["nm"][0] = 0
+    open(tr, "w").write("\n".join(lines[:k] + [json.dumps(d)] + lines[k + 1:]) + "\n")
+    ok2 = val("selfn_bad1")
+    open(tr, "w").write("\n".join(lines[:k] + lines[k + 1:]) + "\n")
+    ok3 = val("selfn_bad2")
+    print("selftest (notes): recorded trace accepted=%s, corrupted bit accepted=%s, dropped event accepted=%s" % (ok1, ok2, ok3))
+    if not ok1 or ok2 or ok3:
+        print("selftest FAILED: NoteTrace.tla does not bind")
+        return 1
     return 0
 
 
